@@ -135,6 +135,43 @@ core::RunResult run_stream(const Plan &plan, bool log) {
     while (i <= s.size()) { size_t j = s.find(',', i); if (j == std::string::npos) j = s.size(); if (j > i) known.insert(s.substr(i, j - i)); i = j + 1; }
   }
   try {
+    if (plan.C("huge", 0)) {
+      // The size dimension the streams cannot reach: a container array whose length word is at / just above the
+      // 2^26-byte array limit is only judged once the whole message (> 64 MiB) is there.  Built by hand (two inner
+      // byte arrays inside an 'aay'), handed to dbus_message_demarshal - the validator the loader uses too.
+      long delta = plan.C("huge.delta", 0);                 // outer array length = 2^26 + delta (delta a multiple of 4)
+      simk::kernel_init();
+      wire::Msg hm = wire::Msg::signal(7, "/o", "a.b", "M", {wire::Value::array("ay", {})});
+      hm.set_field(wire::F_SIGNATURE, wire::Value::sigval("aay"));
+      std::string head = wire::marshal(hm);
+      size_t hdr_len = head.size() - 4;                      // the empty outer array contributed its 4-byte length word
+      const uint32_t outer = (uint32_t)((1u << 26) + delta);
+      // outer content: [len1][L1 bytes][pad to 4][len2][L2 bytes], L1 = 2^25 - 4 (so the second length word stays aligned)
+      const uint32_t l1 = (1u << 25) - 4, l2 = outer - 4 - l1 - 4;
+      std::string msg;
+      msg.reserve(hdr_len + 4 + outer);
+      msg.assign(head, 0, hdr_len);
+      auto put32 = [&](uint32_t v) { char b[4]; memcpy(b, &v, 4); if (hm.big_endian) std::swap(b[0], b[3]), std::swap(b[1], b[2]); msg.append(b, 4); };
+      put32(outer); put32(l1); msg.append(l1, 'x'); put32(l2); msg.append(l2, 'y');
+      uint32_t body_len = 4 + outer;
+      memcpy(&msg[4], &body_len, 4);
+      DBusError err;
+      dbus_error_init(&err);
+      DBusMessage *dm = dbus_message_demarshal(msg.data(), (int)msg.size(), &err);
+      bool accepted = dm != nullptr;
+      if (dm) dbus_message_unref(dm); else dbus_error_free(&err);
+      counters["probe:huge_array_message"]++;
+      counters["messages_compared"]++;
+      hist = "an 'aay' whose outer array is 2^26" + std::string(delta ? "+" + std::to_string(delta) : "") + " bytes long";
+      if (delta > 0 && accepted) fail("oracle:C01:accepted-invalid", "dbus_message_demarshal accepts a message whose array is %u bytes long (the limit is 2^26)", outer);
+      if (delta <= 0 && !accepted) fail("oracle:C01:rejected-valid", "dbus_message_demarshal rejects a message whose array is exactly %u bytes long", outer);
+      dbus_shutdown();
+      res.hash = tr.h;
+      res.counters = counters;
+      res.nontrivial = true;
+      res.sample = hist;
+      return res;
+    }
     lw::LibWorld w(tr, plan.seed);
     long maxmsg = plan.C("maxmsg", -1);
     w.max_message_size = maxmsg;
@@ -394,6 +431,11 @@ Plan gen_stream(const std::string &prop, uint64_t seed, bool th) {
   Plan p;
   p.prop = prop;
   p.seed = seed;
+  if (prop == "C01" && r.below(th ? 2000 : 6000) == 0) {
+    p.cfg["huge"] = "1";
+    p.cfg["huge.delta"] = r.chance(30) ? "0" : (r.chance(50) ? "4" : std::to_string(4 * (1 + r.below(1000))));
+    return p;
+  }
   if (r.chance(35)) p.cfg["maxmsg"] = std::to_string(64 + r.below(th ? 200000 : 4000));
   if (r.chance(40)) p.cfg["knob.read_limit"] = std::to_string(1 + r.below(64));
   if (r.chance(50)) p.cfg["hs_separate"] = "1";
